@@ -395,8 +395,8 @@ class AllocSuite(Suite):
                 "big_value_type_programs": big, "max_handles_in_one_suspend_point": max_n}
 
     def oracle(self, case, out):
-        """C20 evaluated on the implementation's trace: the only allocations are one frame per coroutine / generator created with
-        a heap frame, and handle arrays of suspend points that already hold more than three... at least three handles"""
+        """C20 evaluated on the implementation's trace: the only allocations are one frame per coroutine / generator created with a
+        heap frame, and handle arrays of suspend points that already hold three handles (i.e. are about to carry more than three)"""
         msgs = []
         ops = case["lines"][1:]
         for op, line in zip(ops, out):
@@ -418,8 +418,8 @@ class AllocSuite(Suite):
                         msgs.append("frame: a coroutine frame was allocated by `%s`, which creates no heap-frame coroutine" % op)
                 elif cat == "growth":
                     if n < 2 * INLINE:
-                        msgs.append("growth: a suspend point allocated a handle array of %d cells (holding %d <= %d handles) during `%s`"
-                                    % (n, n // 2, INLINE - 1 if n // 2 < INLINE else INLINE, op))
+                        msgs.append("growth: a suspend point allocated a handle array of %d cells, i.e. while holding only %d "
+                                    "handles (up to %d must be carried without allocation), during `%s`" % (n, n // 2, INLINE, op))
                     else:
                         carried = next((int(h[2:]) for h in head if h.startswith("n=") and h[2:].isdigit()), None)
                         if carried is not None and w[0] in ("res", "ul", "sa") and e[3] < first_c and carried <= INLINE:
